@@ -265,6 +265,7 @@ func AddContext(context interface{}, newContext ssi.URI) []interface{} {
 
 // Canonicalize canonicalizes the json-ld input according to the URDNA2015 [RDF-DATASET-NORMALIZATION] algorithm.
 func (util LDUtil) Canonicalize(input interface{}) (result interface{}, err error) {
+	defer recoverProcessorPanic(&err)
 	var optionsMap map[string]interface{}
 	inputAsJSON, _ := json.Marshal(input)
 	if err := json.Unmarshal(inputAsJSON, &optionsMap); err != nil {
@@ -282,4 +283,14 @@ func (util LDUtil) Canonicalize(input interface{}) (result interface{}, err erro
 		return nil, fmt.Errorf("unable to normalize the json-ld document: %w", err)
 	}
 	return
+}
+
+// recoverProcessorPanic turns a panic of the JSON-LD processor into an error.
+// The processor (json-gold) panics on some malformed documents, e.g. a scalar where the context defines a @graph container
+// or a number where it expects a string. The documents it is given come from untrusted sources, so that must not crash the node.
+// Usage: defer recoverProcessorPanic(&err)
+func recoverProcessorPanic(err *error) {
+	if r := recover(); r != nil {
+		*err = fmt.Errorf("jsonld: invalid document: %v", r)
+	}
 }
